@@ -110,14 +110,16 @@ def durAs (w : WDur) : Int :=
   let d := w.secs * nanosPerSec + w.nanos
   if d < minI64 then minI64 else if d > maxI64 then maxI64 else d
 
-/-- SupervisorSpec: strategy#1 max_retries#2 timeout#3 directives#4 any_error_directive#5.
-    There is NO field for initial delay, max delay or backoff reset. -/
+/-- SupervisorSpec: strategy#1 max_retries#2 timeout#3 directives#4 any_error_directive#5
+    backoff_initial_delay#6 backoff_max_delay#7 backoff_reset_after#8 (the last three since fix
+    1ad4e99; set together, only when a backoff is configured) -/
 structure SupSpec where
   strategy : Strategy
   maxRetries : Nat
   timeout : Option WDur
   directives : Rules
   anyError : Option Directive
+  backoff : Option (WDur × WDur × WDur)
   deriving DecidableEq, Repr
 
 def insertByKey (e : Key × Directive) : Rules → Rules
@@ -131,7 +133,8 @@ def sortByKey : Rules → Rules
 
 /-- codec.EncodeSupervisor -/
 def encodeSup (s : Sup) : SupSpec :=
-  let spec : SupSpec := ⟨s.strategy, s.maxRetries, some (durNew s.timeout), [], none⟩
+  let spec : SupSpec := ⟨s.strategy, s.maxRetries, some (durNew s.timeout), [], none,
+    if 0 < s.initialDelay then some (durNew s.initialDelay, durNew s.maxDelay, durNew s.resetAfter) else none⟩
   match rget s.rules anyKey with
   | some d => { spec with anyError := some d }
   | none => { spec with directives := sortByKey (s.rules.filter (fun e => e.1 ≠ "")) }
@@ -142,7 +145,11 @@ def decodeSup (spec : SupSpec) : Sup :=
     if spec.timeout.isSome || spec.maxRetries ≠ 0 then
       [.retry spec.maxRetries (match spec.timeout with | some t => durAs t | none => 0)]
     else []
-  let opts : List SupOpt := .strategy spec.strategy :: retry
+  let backoff : List SupOpt :=
+    match spec.backoff with
+    | some (i, m, r) => [.backoff (durAs i) (durAs m) (durAs r)]
+    | none => []
+  let opts : List SupOpt := .strategy spec.strategy :: (retry ++ backoff)
   match spec.anyError with
   | some d => newSupervisor (opts ++ [.anyError d])
   | none => spec.directives.foldl (fun s e => applyPost s (.setByType e.1 e.2)) (newSupervisor opts)
